@@ -324,6 +324,16 @@ def run_property(prop, tier, seed, replay=None, jobs=None, only=None):
     svg, src_file, sha = load_repo()
     mod = importlib.import_module("props." + prop.lower())
     subs = mod.build(tier, seed, svg)
+    if replay is not None:
+        # a replay needs the one sub-check it names (and its after: wrapper only if it is a pair that is replayed)
+        try:
+            with open(replay) as f:
+                named = json.load(f).get("sub_check", "")
+        except Exception:  # noqa
+            named = ""
+        only = [named, named[len("after:"):]] if named.startswith("after:") else [named]
+        if not named.startswith("after:"):
+            os.environ["VERIF_CROSSTALK"] = "0"
     if os.environ.get("VERIF_CROSSTALK", "1") != "0":
         # every sub-check once more with the predecessor as a dimension (ordered pairs of its cases in one process)
         from mc import crosstalk
